@@ -227,7 +227,11 @@ class _RabbitConsumer(ConsumerT):
                     id_=msg_id,
                     topic=msg_topic,
                     queue=msg_queue,
-                    priority=message.header.properties.priority or PrioritiesT.MEDIUM.value,
+                    priority=(
+                        message.header.properties.priority
+                        if message.header.properties.priority is not None  # 0 is the LOW priority
+                        else PrioritiesT.MEDIUM.value
+                    ),
                 ),
                 decoded["payload"],
                 params,
